@@ -230,3 +230,75 @@ def run(rep):
 
 def replay(rep, path):
     run(rep)
+
+
+# ----------------------------------------------------------------------------- shared with C01 / C02
+def contains_sublist(hay, needle):
+    n = len(needle)
+    return n == 0 or any(hay[i:i + n] == needle for i in range(len(hay) - n + 1))
+
+
+def declared_vs_delivered(rep, rng, idx, backend, odd_names=False):
+    """C01/C02 system level: every argument string the generated script declares (global options, per-target
+    compile/link options, command words and environment values, build_step words) must be delivered unchanged to the
+    started process by the given backend. Returns number of failures reported."""
+    p = projgen.generate(rng, rep, odd_names=odd_names)
+    bad = 0
+    with project.Scratch('sys' + backend) as s:
+        project.write_tree(s.src, p.tree())
+        rc, out = project.configure(s.src, s.build, backend)
+        if rc != 0:
+            rep.count('system:configure_failed')
+            rep.sample({'configure_failed': out[-300:], 'script': p.script()})
+            return 0
+        envnames = tuple('V%d' % i for i in range(4))
+        if backend == 'make':
+            ntext = None
+            targets = []
+            for st in p.steps:
+                if st['kind'] == 'command':
+                    targets.append(st['name'])
+                elif st['kind'] == 'build_step':
+                    targets.append(st['outputs'][0])
+            rcm, recs, mout = project.make(s.build, ['all'] + targets, stub_tools=True, envnames=envnames)
+            if rcm != 0:
+                rep.fail('%s: make fails on the generated project: %s' % (backend, mout[-300:]),
+                         {'script': p.script(), 'make_output': mout[-1500:]})
+                return 1
+        else:
+            m, recs = ninja_records(s.build, project.read(s.build, 'build.ninja'), [], envnames)
+        argvs = [r['argv'] for r in recs if r['argv'] is not None]
+        for st in p.steps:
+            if st['kind'] == 'command':
+                want = st['args']
+                hit = [r for r in recs if r['argv'] == want]
+                rep.case('sys:%s:cmd:%r' % (backend, want), True)
+                if not hit:
+                    bad += rep.fail('%s backend: command() arguments %r are not delivered unchanged' % (backend, want),
+                                    {'script': p.script(), 'declared': want, 'delivered_candidates': [a for a in argvs if a and a[:1] == want[:1]][:3]})
+                elif any(r['env'].get(k) != v for r in hit[:1] for k, v in st['env'].items()):
+                    bad += rep.fail('%s backend: command() environment %r is delivered as %r' % (backend, st['env'], hit[0]['env']),
+                                    {'script': p.script(), 'declared_env': st['env'], 'delivered_env': hit[0]['env']})
+            elif st['kind'] == 'build_step':
+                rep.case('sys:%s:bs:%r' % (backend, st['args']), True)
+                if st['args'] not in argvs:
+                    bad += rep.fail('%s backend: build_step() arguments %r are not delivered unchanged' % (backend, st['args']),
+                                    {'script': p.script(), 'declared': st['args']})
+            elif st['kind'] == 'compile':
+                src = os.path.join(s.src, st['source'])
+                hit = [a for a in argvs if src in a]
+                want = p.global_compile + st['options']
+                rep.case('sys:%s:cc:%s:%r' % (backend, st['source'], want), bool(want))
+                if backend == 'make' and st['owner'] not in ' '.join(str(x) for x in ['prog0']) and not hit:
+                    continue        # not part of the default target set that make built
+                if hit and not contains_sublist(hit[0], want):
+                    bad += rep.fail('%s backend: compile options %r of %s are delivered as %r' % (backend, want, st['source'], hit[0]),
+                                    {'script': p.script(), 'declared': want, 'delivered': hit[0]})
+            elif st['kind'] == 'link' and st.get('options'):
+                hit = [a for a in argvs if a and '-o' in a and a[-1].endswith(st['name'])]
+                rep.case('sys:%s:ld:%s' % (backend, st['name']), True)
+                if hit and not contains_sublist(hit[0], p.global_link + st['options']):
+                    bad += rep.fail('%s backend: link options %r of %s are delivered as %r' % (backend, p.global_link + st['options'], st['name'], hit[0]),
+                                    {'script': p.script(), 'delivered': hit[0]})
+    rep.traces += 1
+    return bad
